@@ -6,7 +6,7 @@ from vmc.core.report import Report
 from vmc.ref import net
 
 META = {
-    "rule": "frames with body length L in {0,1,2,3,4,8,40,231,232,233,255,256,257,488,1000,65511}; every segmentation of the frame "
+    "rule": "frames with body length L in {0,1,2,3,4,8,40,231,232,233,255,256,257,488,1000,4002,32767,32768,65511}; every segmentation of the frame "
     "into recv chunks with at most B cut points (quick B=3 for frames up to 64 bytes = every set of <=3 cut positions; all "
     "2^(n-1) compositions for the 24..28-byte frames in thorough); for longer frames every subset of the boundary cut set "
     "{1,2,3,4,5,23,24,25,255,256,257,511,512,n-1}; all-one-byte delivery; peer close / socket error / timeout after every byte "
@@ -40,7 +40,7 @@ def frame(L, fill=0):
     return b"\x6f\x00" + struct.pack("<H", L) + bytes((0x11 * (i + 1)) & 0xFF for i in range(20)) + body
 
 
-FRAME_LENGTHS = [0, 1, 2, 3, 4, 8, 40, 231, 232, 233, 255, 256, 257, 488, 1000, 65511]
+FRAME_LENGTHS = [0, 1, 2, 3, 4, 8, 40, 231, 232, 233, 255, 256, 257, 488, 1000, 4002, 32767, 32768, 65511]
 
 
 def boundary_cuts(n):
